@@ -643,7 +643,10 @@ def check(prop, tier, only=None):
         new_excl = set()
         for h in pending:
             r = pb[h["name"]]
-            tests = [t for t in (r.get("concrete_vals") or []) if t[0] != "cover"]
+            # vectors of failed assertions first, then the vectors Kani printed for satisfied
+            # covers (for some failed checks Kani prints no vector of their own; any valid input
+            # that makes the native replay fail is a genuine counterexample)
+            tests = list(r.get("concrete_vals") or [])
             failed = [f["desc"] for f in r.get("parsed", {}).get("failed", [])]
             if r["outcome"] != "fail" or not tests:
                 inconclusive.append((h["name"], "counterexample extraction failed: %s" % r.get("detail", r["outcome"])))
